@@ -165,6 +165,8 @@ def deep_copy(v):
     if isinstance(v, Struct):
         return Struct(v.name, [deep_copy(x) for x in v])
     if isinstance(v, list):
+        if type(v) is not list:
+            return type(v)([deep_copy(x) for x in v])      # list subclasses without extra state (SIMD lanes)
         return [deep_copy(x) for x in v]
     if isinstance(v, En):
         return En(v.v, [deep_copy(x) for x in v.f], v.ty)
